@@ -40,6 +40,18 @@ def configs(tier):
             out.append(dict(entry=entry, n=5, w=w, b=b, backend=backend, consumers=[['close', 1]], sync_events=['returned', 'shutdown-begin']))
             out.append(dict(entry=entry, n=2, w=w, b=b, backend=backend,
                             consumers=[['close', 1], ['close', 0], ['exhaust']], sync_events=['returned', 'shutdown-begin']))
+    # a cached stage that several workers ask for the same example, with a failing computation
+    for n, fail in ((1, {0: 'ValueError'}), (2, {0: 'ValueError'}), (2, {1: 'ValueError'})):
+        out.append(dict(entry='prefetch', n=n, w=2, b=2, backend='t', pre=['cache', 'tile2'], fail_fn=fail,
+                        sync_events=['returned', 'shutdown-begin'], log_points=['start']))
+    # key iteration (the worker iterates a generator object) stopped while the producer is inside an example
+    for b in (1, 2):
+        for k in (0, 1, 2):
+            for how in ('close', 'drop'):
+                out.append(dict(entry='prefetch', n=3, w=1, b=b, backend='t', mode='items', consumers=[[how, k]],
+                                sync_events=['returned', 'shutdown-begin'], log_points=['start', 'end']))
+        out.append(dict(entry='prefetch', n=3, w=1, b=b, backend='t', mode='items', fail_fn={1: 'ValueError'},
+                        sync_events=['returned', 'shutdown-begin'], log_points=['start']))
     return out
 
 
@@ -55,6 +67,12 @@ def run(tier):
     bound = 1 if tier == 'quick' else 2
     _e2.run_matrix('C05', 'oracle_stop', [(c, 'L', bound) for c in lcfgs], res,
                    f'mode L, every source line, preemption bound {bound}')
+    # mode D trusts the dependence labels; state shared through plain attributes / dicts has none.  Every small
+    # thread-backend configuration is therefore explored once more without any reduction, up to 2 preemptions
+    bcfgs = [c for c in cfgs if c['backend'] == 't' and c['n'] <= 3 and c['w'] <= 2 and len(c.get('consumers', [1])) == 1
+             and (tier == 'thorough' or c['b'] <= 2)]
+    _e2.run_matrix('C05', 'oracle_stop', [(c, 'B', 2) for c in bcfgs], res,
+                   'mode B: visible operations, no reduction, preemption bound 2', cap=60000)
     res.coverage['preemption_bound_completed'] = bound
     return _e2.finish(res, 5000)
 
